@@ -86,19 +86,65 @@ def statPutBefore (s : DL) (sl : SL) (item pos : Nat) : DL × SL :=
 def statPutAfter (s : DL) (sl : SL) (item pos : Nat) : DL × SL :=
   (listPrepend s pos item, { sl with count := sl.count + 1 })
 
-/-! ### list_sort on the links
+/-! ### list_sort on the links (usual/list.c), at pointer level
 
-    The element sequence is what the `while (list->next != list)` loop peels off (`toList`);
-    it is sorted by `ListSort.listSort` (the merges only ever write `next` fields, and leave the
-    NULL-terminated chain `chainNext`); then the tail of `list_sort` is transcribed:
-    `list->next = p; for (p = list; p->next; p = p->next) p->next->prev = p;
-     list->prev = p; p->next = list;` -/
+    `merge` and `list_sort` are transcribed over the node store: the merges read and write
+    `next` fields only (singly linked, NULL = 0 terminated runs; `res` is the dummy head on the C
+    stack, so `tail == res` is `tail = none` and `res->next` is the separate value `rn`), the
+    64-slot `stack[]` is a list of run heads (0 = NULL) for slots 0 .. top-1, and the closing
+    loop restores `prev`.  `fuel` bounds every loop by the number of nodes. -/
 
-/-- the singly linked, NULL-terminated result of the merges -/
-def chainNext (s : DL) : List Nat → DL
-  | [] => s
-  | [x] => setNext s x 0
-  | x :: y :: rest => chainNext (setNext s x y) (y :: rest)
+/-- the `while (p && q)` loop of merge() and its closing `tail->next = p ? p : q`;
+    returns the store and `res->next` -/
+def mergeLoop (le : Nat → Nat → Bool) : Nat → DL → Nat → Nat → Option Nat → Nat → DL × Nat
+  | 0, s, _, _, _, rn => (s, rn)
+  | fuel + 1, s, p, q, tail, rn =>
+    if p ≠ 0 ∧ q ≠ 0 then
+      let e := if le p q then p else q                       -- cmp_func(p, q) <= 0 ? p : q
+      let p' := if le p q then s.next.get p else p           -- p = p->next
+      let q' := if le p q then q else s.next.get q           -- q = q->next
+      match tail with                                        -- tail->next = e; tail = e
+      | none => mergeLoop le fuel s p' q' (some e) e
+      | some t => mergeLoop le fuel (setNext s t e) p' q' (some e) rn
+    else
+      let r := if p ≠ 0 then p else q                        -- tail->next = p ? p : q
+      match tail with
+      | none => (s, r)
+      | some t => (setNext s t r, rn)
+
+/-- merge(cmp_func, p, q) -/
+def ptrMerge (le : Nat → Nat → Bool) (fuel : Nat) (s : DL) (p q : Nat) : DL × Nat :=
+  mergeLoop le fuel s p q none 0
+
+/-- `for (i = 0; i < top && stack[i]; i++) { p = merge(stack[i], p); stack[i] = NULL; }
+     stack[i] = p; if (i == top) top++;` -/
+def carryP (le : Nat → Nat → Bool) (fuel : Nat) : DL → List Nat → Nat → DL × List Nat
+  | s, [], p => (s, [p])
+  | s, r :: rest, p =>
+    if r = 0 then (s, p :: rest)
+    else
+      let m := ptrMerge le fuel s r p
+      let c := carryP le fuel m.1 rest m.2
+      (c.1, 0 :: c.2)
+
+/-- `while (list->next != list) { p = list->next; list->next = p->next; p->next = NULL; ... }` -/
+def peelLoop (le : Nat → Nat → Bool) (fuel l : Nat) : Nat → DL → List Nat → DL × List Nat
+  | 0, s, st => (s, st)
+  | k + 1, s, st =>
+    if s.next.get l = l then (s, st)
+    else
+      let p := s.next.get l
+      let s := setNext s l (s.next.get p)
+      let s := setNext s p 0
+      let c := carryP le fuel s st p
+      peelLoop le fuel l k c.1 c.2
+
+/-- `for (p = NULL, i = 0; i < top; i++) p = merge(cmp_func, stack[i], p);` -/
+def collapseP (le : Nat → Nat → Bool) (fuel : Nat) : DL → List Nat → Nat → DL × Nat
+  | s, [], p => (s, p)
+  | s, r :: rest, p =>
+    let m := ptrMerge le fuel s r p
+    collapseP le fuel m.1 rest m.2
 
 /-- the `for (p = list; p->next; p = p->next) p->next->prev = p;` loop and the two closing stores -/
 def fixPrev (l : Nat) : Nat → DL → Nat → DL
@@ -107,13 +153,13 @@ def fixPrev (l : Nat) : Nat → DL → Nat → DL
     if s.next.get p = 0 then setNext (setPrev s l p) p l
     else fixPrev l fuel (setPrev s (s.next.get p) p) (s.next.get p)
 
+/-- list_sort(list, cmp_func) -/
 def listSort (le : Nat → Nat → Bool) (s : DL) (l : Nat) (fuel : Nat) : DL :=
   if listEmpty s l then s
   else
-    let items := toList s l fuel
-    let sorted := ListSort.listSort le items
-    let s := chainNext s sorted
-    let s := setNext s l (sorted.headD 0)
+    let pl := peelLoop le (fuel + 1) l fuel s []
+    let cl := collapseP le (fuel + 1) pl.1 pl.2 0
+    let s := setNext cl.1 l cl.2                  -- list->next = p
     fixPrev l (fuel + 1) s l
 
 end Usual.C15.DList
